@@ -3,6 +3,7 @@ package main
 // Symbolic values, Go-type -> SMT-sort mapping, and the heap model.
 
 import (
+	"regexp"
 	"fmt"
 	"go/types"
 	"math"
@@ -149,8 +150,13 @@ func intVal(tm string) Val                      { return Val{K: KInt, T: types.T
 
 // typeKey is a stable printable name for a Go type used in heap keys.
 func typeKey(t types.Type) string {
-	return sanitize(types.TypeString(t, func(p *types.Package) string { return p.Name() }))
+	return sanitize(canonAny(types.TypeString(t, func(p *types.Package) string { return p.Name() })))
 }
+
+var anyWord = regexp.MustCompile(`\bany\b`)
+
+// canonAny: "any" is an alias of interface{}; both spellings must give one key / tag.
+func canonAny(s string) string { return anyWord.ReplaceAllString(s, "interface{}") }
 
 // ---------------------------------------------------------------------------
 // type tags for interfaces: one Int constant per Go type, allocated per Engine
@@ -163,7 +169,7 @@ type TagTable struct {
 func newTagTable() *TagTable { return &TagTable{ids: map[string]int{}} }
 
 func (tt *TagTable) tag(t types.Type) int {
-	k := types.TypeString(t, nil)
+	k := canonAny(types.TypeString(t, nil))
 	if id, ok := tt.ids[k]; ok {
 		return id
 	}
